@@ -376,6 +376,29 @@ theorem closed_system_agreement (acts : List Act) :
     · exact absurd hs a
   · exact ⟨a.1.1, a.1.2, a.2⟩
 
+open RtcModel.DtlsFlights in
+/-- the same two statements in a second free world (`W1`: no extended master secret, no SRTP profile,
+no expected fingerprint at the client, an — unchecked, see C02 — expected fingerprint at the server) -/
+theorem converge_if_delivered_w1 (acts : List Act) :
+    bothConnected (fairRound W1 (fairRound W1 ((Sys.init W1).run W1 acts))) = true ∧
+    (((Sys.init W1).run W1 acts).c.conn = .connected → ((Sys.init W1).run W1 acts).s.conn = .connected →
+      ((Sys.init W1).run W1 acts).c.connKeys = ((Sys.init W1).run W1 acts).s.connKeys ∧
+      ((Sys.init W1).run W1 acts).c.connSrtp = ((Sys.init W1).run W1 acts).s.connSrtp) := by
+  have hmem := closed_run reach1_closed acts (Sys.init W1) reach1_init
+  have h1 := reach1_good
+  have h2 := reach1_agree
+  rw [List.all_eq_true] at h1 h2
+  refine ⟨h1 _ hmem, ?_⟩
+  intro hc hs
+  have a := h2 _ hmem
+  simp only [Bool.or_eq_true, Bool.not_eq_true', Bool.and_eq_true, beq_iff_eq, decide_eq_true_eq,
+    Bool.and_eq_false_iff, beq_eq_false_iff_ne] at a
+  rcases a with a | a
+  · rcases a with a | a
+    · exact absurd hc a
+    · exact absurd hs a
+  · exact ⟨a.1.1, a.1.2⟩
+
 /-! ### non-vacuity / recovery on a concrete instance -/
 
 /-- the clean run of C02's toy instance connects (already shown there); after it, a repeated client
